@@ -5,28 +5,33 @@ From DX Require Import Syntax Tables GenBound GenAttrs IR GenType GenCmp SpecAtt
 Definition expr_of (s : selection) (t : ty) : cmp_expr :=
   match s with SBy a g => CEBy a g | SKey k => CEKey k | SOwn => CEDefault t end.
 
+Definition sel_for (op : cmpop) (c : cmp_attrs) : selection :=
+  match op with CEq => eq_selected c | _ => selected op c end.
+
 Definition spec_cmp_field (op : cmpop) (f : fentry) : cmp_field :=
   let c := ha_cmp (fe_hattrs f) in
   {| cf_fld := fld_of f;
-     cf_expr := expr_of (selected op c) (fty f);
+     cf_expr := expr_of (sel_for op c) (fty f);
      cf_reverse := match op with COrd | CPartialOrd => reversed op c | _ => false end |}.
 
-Definition sel_expr (s : sel) (t : ty) : cmp_expr :=
-  match s with SelBy a g => CEBy a g | SelKey _ k => CEKey k | SelNone => CEDefault t end.
+Notation sel_expr := sel_to_expr.
 
-Fixpoint sel_of_steps (c : cmp_attrs) (l : list (cmpop * bool)) : sel :=
-  match l with
-  | [] => SelNone
-  | (a, ab) :: rest =>
-      match (if ab then c_by (cmp_get c a) else None) with
-      | Some g => SelBy a g
-      | None => match c_key (cmp_get c a) with Some k => SelKey a k | None => sel_of_steps c rest end
-      end
-  end.
+Lemma sel_for_own op c : is_own (sel_for op c) = is_own (selected op c).
+Proof.
+  destruct op; try reflexivity. unfold sel_for, eq_selected.
+  unfold selected, attr_selection, specific_first.
+  cbn [filter affects flat_map by_counts cmpop_eqb cmp_get app];
+    repeat match goal with
+           | |- context [c_by ?x] => destruct (c_by x); cbn
+           | |- context [c_key ?x] => destruct (c_key x); cbn
+           end; reflexivity.
+Qed.
+
+Notation sel_of_steps := pure_chain.
 
 Lemma chain_sel c l st : fst (chain c l st) = sel_of_steps c l.
 Proof.
-  revert st. induction l as [|[a ab] l IH]; intros st; cbn [chain sel_of_steps]; [reflexivity|].
+  revert st. induction l as [|[a ab] l IH]; intros st; cbn [chain pure_chain]; [reflexivity|].
   destruct (if ab then c_by (cmp_get c a) else None); [reflexivity|].
   destruct (c_key (cmp_get c a)); [reflexivity|]. apply IH.
 Qed.
@@ -35,24 +40,64 @@ Lemma sel_steps_selected op c t :
   sel_expr (sel_of_steps c (steps op)) t = expr_of (selected op c) t.
 Proof.
   unfold selected, attr_selection, specific_first.
-  destruct op; cbn [steps sel_of_steps filter affects flat_map by_counts cmpop_eqb cmp_get app];
+  destruct op; cbn [steps pure_chain filter affects flat_map by_counts cmpop_eqb cmp_get app];
     repeat match goal with
            | |- context [c_by ?x] => destruct (c_by x)
            | |- context [c_key ?x] => destruct (c_key x)
            end; reflexivity.
 Qed.
 
-Lemma build_expr_sel op f st e used st' :
+Lemma build_expr_sel_plain op f st e used st' :
+  op <> CEq ->
   build_expr op f st = Ok (e, used, st') ->
   e = expr_of (selected op (ha_cmp (fe_hattrs f))) (fty f).
 Proof.
-  unfold build_expr. pose proof (chain_sel (ha_cmp (fe_hattrs f)) (steps op) st) as Hs.
+  intros Hop. unfold build_expr. pose proof (chain_sel (ha_cmp (fe_hattrs f)) (steps op) st) as Hs.
   destruct (chain (ha_cmp (fe_hattrs f)) (steps op) st) as [s st1]. cbn [fst] in Hs.
   rewrite <- sel_steps_selected, <- Hs.
-  destruct s; cbn [sel_expr].
+  assert (Hm : eq_override op (ha_cmp (fe_hattrs f)) s = s) by (destruct op; try reflexivity; congruence).
+  rewrite Hm.
+  destruct s; cbn [sel_to_expr].
   - intros X; now inversion X.
   - intros X; now inversion X.
   - destruct (cmp_bad_attr _); [discriminate|]. intros X; now inversion X.
+Qed.
+
+Lemma eq_override_spec c s t :
+  s = pure_chain c (steps CEq) -> s <> SelNone ->
+  sel_to_expr (eq_override CEq c s) t = expr_of (selected CPartialEq c) t.
+Proof.
+  intros -> Hn. rewrite <- sel_steps_selected. unfold eq_override. revert Hn.
+  cbn [steps pure_chain cmp_get].
+  repeat match goal with
+         | |- context [c_by ?x] => destruct (c_by x)
+         | |- context [c_key ?x] => destruct (c_key x)
+         end; cbn [sel_to_expr]; intros Hn; try reflexivity; congruence.
+Qed.
+
+Lemma build_expr_sel_eq f st e used st' :
+  build_expr CEq f st = Ok (e, used, st') ->
+  e = expr_of (eq_selected (ha_cmp (fe_hattrs f))) (fty f).
+Proof.
+  unfold build_expr. pose proof (chain_sel (ha_cmp (fe_hattrs f)) (steps CEq) st) as Hs.
+  destruct (chain (ha_cmp (fe_hattrs f)) (steps CEq) st) as [s st1]. cbn [fst] in Hs.
+  pose proof (sel_steps_selected CEq (ha_cmp (fe_hattrs f)) (fty f)) as He.
+  rewrite <- Hs in He. unfold eq_selected.
+  destruct s as [a g|a k|]; cbn [sel_to_expr] in He.
+  - destruct (selected CEq _); try discriminate.
+    intros X; inversion X. apply eq_override_spec; [exact Hs | discriminate].
+  - destruct (selected CEq _); try discriminate.
+    intros X; inversion X. apply eq_override_spec; [exact Hs | discriminate].
+  - destruct (selected CEq _); try discriminate.
+    destruct (cmp_bad_attr _); [discriminate|]. intros X; now inversion X.
+Qed.
+
+Lemma build_expr_sel op f st e used st' :
+  build_expr op f st = Ok (e, used, st') ->
+  e = expr_of (sel_for op (ha_cmp (fe_hattrs f))) (fty f).
+Proof.
+  destruct op; try (intros H; apply build_expr_sel_plain in H; [exact H | discriminate]).
+  apply build_expr_sel_eq.
 Qed.
 
 Lemma is_reverse_spec c op r :
@@ -80,7 +125,7 @@ Proof.
       destruct (hattrs_push_bounds_to_without_helper _ _ _ _) as [w2 ubf2].
       destruct (build_from_fields op fs ub _) as [[r w3]| |] eqn:Er; cbn [bind] in H; try discriminate H.
       apply IH in Er. inversion H; subst. cbn [map]. f_equal.
-      unfold spec_cmp_field. f_equal.
+      unfold spec_cmp_field. cbn [sel_for]. f_equal.
       destruct op; try (now inversion Erev);
         (eapply is_reverse_spec; [auto | exact Erev]).
 Qed.
@@ -149,7 +194,7 @@ Section Eval.
   Lemma field_eq_spec f a b :
     field_eq (spec_cmp_field CPartialEq f) a b = sp_field_eq f (at_ V a f) (at_ V b f).
   Proof.
-    unfold SemCmp.field_eq, SpecCmp.sp_field_eq, fget, at_, spec_cmp_field. cbn [cf_fld cf_expr fld_of fl_index].
+    unfold SemCmp.field_eq, SpecCmp.sp_field_eq, fget, at_, spec_cmp_field. cbn [sel_for cf_fld cf_expr fld_of fl_index].
     destruct (selected CPartialEq (ha_cmp (fe_hattrs f))) as [a0 g|k|]; cbn [expr_of]; try reflexivity.
     all: destruct a0; unfold is_some_eq, is_eq; reflexivity.
   Qed.
@@ -158,7 +203,7 @@ Section Eval.
     field_pcmp (spec_cmp_field CPartialOrd f) a b = sp_field_pcmp f (at_ V a f) (at_ V b f).
   Proof.
     unfold SemCmp.field_pcmp, SpecCmp.sp_field_pcmp, fget, at_, spec_cmp_field.
-    cbn [cf_fld cf_expr cf_reverse fld_of fl_index].
+    cbn [sel_for cf_fld cf_expr cf_reverse fld_of fl_index].
     destruct (selected CPartialOrd (ha_cmp (fe_hattrs f))) as [a0 g|k|]; cbn [expr_of]; try reflexivity.
     all: destruct a0; reflexivity.
   Qed.
@@ -167,7 +212,7 @@ Section Eval.
     field_cmp (spec_cmp_field COrd f) a b = sp_field_cmp f (at_ V a f) (at_ V b f).
   Proof.
     unfold SemCmp.field_cmp, SpecCmp.sp_field_cmp, fget, at_, spec_cmp_field.
-    cbn [cf_fld cf_expr cf_reverse fld_of fl_index].
+    cbn [sel_for cf_fld cf_expr cf_reverse fld_of fl_index].
     destruct (selected COrd (ha_cmp (fe_hattrs f))) as [a0 g|k|]; cbn [expr_of]; reflexivity.
   Qed.
 
@@ -203,21 +248,21 @@ Section Eval.
   Qed.
 
   Lemma field_feed_spec op f a :
-    field_feed V (spec_cmp_field op f) a = match selected op (ha_cmp (fe_hattrs f)) with
+    field_feed V (spec_cmp_field op f) a = match sel_for op (ha_cmp (fe_hattrs f)) with
                                            | SBy _ g => FeedBy g (at_ V a f)
                                            | SKey k => FeedKey k (at_ V a f)
                                            | SOwn => FeedField (fty f) (at_ V a f)
                                            end.
   Proof.
     unfold field_feed, fget, at_, spec_cmp_field. cbn [cf_fld cf_expr fld_of fl_index].
-    destruct (selected op (ha_cmp (fe_hattrs f))); reflexivity.
+    destruct (sel_for op (ha_cmp (fe_hattrs f))); reflexivity.
   Qed.
 
   Lemma fields_feed_spec fs a :
     map (fun c => field_feed V c a) (map (spec_cmp_field CHash) (cmp_used_fields CHash fs))
     = sp_fields_feed V fs a.
   Proof.
-    unfold sp_fields_feed, sp_field_feed. rewrite map_map. apply map_ext. intros f. apply field_feed_spec.
+    unfold sp_fields_feed, sp_field_feed. rewrite map_map. apply map_ext. intros f. apply (field_feed_spec CHash).
   Qed.
 
   (** *** enums: arm search = variant lookup *)
